@@ -1338,8 +1338,11 @@ class CSym:
                 raise AnalysisError("forward substitution (C): cannot bind the arguments of %s()" % name)
             self.depth += 1
             saved = (list(self.effects), list(self.path))
+            own = set(ps) | {n.get("name") for n in walk(self.tu.body(f)) if kind(n) == "VarDecl"}
+            init = dict(zip(ps, args))
+            init.update(self._file_level(lw.env, own))
             try:
-                out = self.block([self.tu.body(f)], dict(zip(ps, args)))
+                out = self.block([self.tu.body(f)], init)
             except AnalysisError:
                 # e.g. a loop: a value-only helper stays an opaque function of its arguments
                 self.effects[:], self.path[:] = saved
@@ -1349,6 +1352,15 @@ class CSym:
                 raise
             finally:
                 self.depth -= 1
+            # what the callee stored into file-level objects survives the call (its locals and parameters die with it)
+            stored = set()
+            for _, leaf in leaves(out):
+                stored |= set(leaf[2] if leaf[0] == "ret" else leaf[1])
+            for k in sorted(stored):
+                if re.split(r"->|\.|\[", k, 1)[0] in self.tu.vars and re.split(r"->|\.|\[", k, 1)[0] not in own:
+                    v = self.final(out, k)
+                    if v != lw.env.get(k, V(k)):
+                        lw.env[k] = v
             return self.result(out)
         # external call / call with pointer arguments: record it, forget what the pointees held
         self.effects.append((tuple(self.path), name, tuple(args)))
@@ -1365,6 +1377,12 @@ class CSym:
             for k in keys:
                 lw.env[k] = ("post", name, k.split("->", 1)[1]) + tuple(args)
         return ("call", name) + tuple(args)
+
+    def _file_level(self, env, own):
+        """what the caller knows about file-level objects (members included) that the callee does not shadow: the callee
+        reads the values the caller left there, not the contents at the caller's entry"""
+        return {k: v for k, v in env.items()
+                if re.split(r"->|\.|\[", k, 1)[0] in self.tu.vars and re.split(r"->|\.|\[", k, 1)[0] not in own}
 
     def _plain_pointer_params(self, f, pids):
         """every use of the pointer parameters `pids` in f is `q->field` or a plain argument of a call: the
@@ -1422,6 +1440,9 @@ class CSym:
             for k, v in lw.env.items():
                 if k.startswith(p + "->"):
                     init[q + k[len(p):]] = v
+        callee_own = {p.get("name") for p in ps} | {n.get("name") for n in walk(self.tu.body(f)) if kind(n) == "VarDecl"}
+        for k, v in self._file_level(lw.env, callee_own).items():
+            init.setdefault(k, v)
         back = {}           # callee symbol -> caller term
         for q, p in bind.items():
             back[q] = V(p)
